@@ -51,3 +51,37 @@ let () =
            | Extracted.Choice.ChPlain e -> List [Atom "plain"; of_expr e]
            | Extracted.Choice.ChAny -> List [Atom "any"])
       | _ -> raise (Shape "choice args"))
+
+(* mistakes <shell> <grammar> -> (classes c...) (specsok 0|1)        [Spec/Mistakes.v]
+   warnings <shell> <grammar> -> (undefined "n"...) (unused "n"...) (unusedspecs "n"...)  [Spec/Warnings.v] *)
+let class_name (c : Extracted.Mistakes.mclass) : string =
+  match c with
+  | Extracted.Mistakes.MNoCallVariant -> "MNoCallVariant"
+  | Extracted.Mistakes.MVaryingNames -> "MVaryingNames"
+  | Extracted.Mistakes.MSlashInName -> "MSlashInName"
+  | Extracted.Mistakes.MDuplicatePlain -> "MDuplicatePlain"
+  | Extracted.Mistakes.MDuplicateForShell -> "MDuplicateForShell"
+  | Extracted.Mistakes.MUnknownShell -> "MUnknownShell"
+  | Extracted.Mistakes.MNonCommandForShell -> "MNonCommandForShell"
+  | Extracted.Mistakes.MCycle -> "MCycle"
+  | Extracted.Mistakes.MSubwordSpaces -> "MSubwordSpaces"
+  | Extracted.Mistakes.MPlaceholderNotLast -> "MPlaceholderNotLast"
+
+let () =
+  register "mistakes" (fun v ->
+      match v with
+      | List [sh; g] ->
+          let g = grammar_of g and sh = shell_of sh in
+          let cs = Extracted.Mistakes.present Extracted.Consts.builtins g sh in
+          List [List (Atom "classes" :: List.map (fun c -> Atom (class_name c)) cs);
+                List [Atom "specsok"; Atom (if Extracted.Mistakes.specs_have_command_plain g then "1" else "0")]]
+      | _ -> raise (Shape "mistakes args"));
+  register "warnings" (fun v ->
+      match v with
+      | List [sh; g] ->
+          let g = grammar_of g and sh = shell_of sh in
+          let names l = List.map (fun s -> Str s) (List.sort_uniq compare (List.map str l)) in
+          List [List (Atom "undefined" :: names (Extracted.Warnings.undefined_reported Extracted.Consts.builtins g sh));
+                List (Atom "unused" :: names (Extracted.Warnings.unused_plain g));
+                List (Atom "unusedspecs" :: names (Extracted.Warnings.unused_for_shell g sh))]
+      | _ -> raise (Shape "warnings args"))
